@@ -56,7 +56,8 @@ W w_##N##_optional(int32_t x0, uint8_t f0, int32_t nv, int64_t* out) { T x(x0); 
     sv(o.value(), nv); o.has_value() = !f; out[2] = gv(x); out[3] = f; \
     auto&& rv = std::move(o).value(); out[4] = (&rv == &x);            /* rvalue accessor of a reference closure still designates the referent */ \
     auto own = own_optional<T>(x0 + 5, true); out[5] = gv(own.value()); out[6] = own.has_value(); \
-    const T cx(x0 + 7); auto co = xtl::optional(cx, f); out[7] = (&co.value() == &cx); }
+    const T cx(x0 + 7); auto co = xtl::optional(cx, f); out[7] = (&co.value() == &cx); \
+    xtl::xoptional<T> s(T(0), false); s = xtl::optional(x, f); out[8] = gv(x); out[9] = gv(s.value());   /* assigning an rvalue reference-closure proxy to an owning optional copies from the referent, it must not move from it */ }
 CASES(int, i)
 CASES(Counted, c)
 // xcomplex over reference closures, proxy wrapper, forward_sequence
